@@ -511,8 +511,7 @@ Theorem vhost_precedence c t wl h host port :
 Proof.
   intros Hb Hwl Hh. unfold spec_vhost. rewrite Hh.
   rewrite <- (find_index_best c t wl host port Hb Hwl).
-  unfold find_vhost_with. unfold host_parts in Hh.
-  destruct (String.eqb h "") eqn:Ee; [discriminate|]. rewrite Hh.
+  unfold find_vhost_with. cbn [host_parts_opt]. rewrite Hh.
   destruct (only_default t) eqn:Eo; [|reflexivity].
   symmetry. now apply only_default_index.
 Qed.
@@ -532,14 +531,32 @@ Proof.
   - destruct Hbest as [_ Hnone]. exact Hnone.
 Qed.
 
-(* a Host value that is unset, empty or not host[:port] selects the default when it is the only domain, else nothing *)
-Theorem vhost_unusable_host t wl h :
-  match h with None => True | Some hh => host_parts hh = None end ->
-  find_vhost_with wl t h = if only_default t then t_default t else None.
+(* a Host value that is unset, empty or not host[:port] selects the default virtual host (none if there is no default) *)
+Theorem vhost_unusable_host t wl h : host_parts_opt h = None -> find_vhost_with wl t h = t_default t.
 Proof.
-  intros Hh. unfold find_vhost_with. destruct (only_default t); [reflexivity|].
-  destruct h as [hh|]; [|reflexivity]. unfold host_parts in Hh.
-  destruct (String.eqb hh ""); [reflexivity|]. rewrite Hh. reflexivity.
+  intros Hh. unfold find_vhost_with. rewrite Hh. destruct (only_default t); reflexivity.
+Qed.
+
+(* the default of an accepted configuration is its default entry *)
+Lemma default_of_entries c t : build c = Ok t -> t_default t = default_of (entries c).
+Proof.
+  intros Hb. destruct (build_ok _ _ Hb) as [Hhold Huniq]. unfold default_of.
+  destruct (find is_default (entries c)) as [[i k]|] eqn:Ef; cbn [option_map fst].
+  - apply find_some in Ef as [Hin Hd]. unfold is_default in Hd. cbn [snd] in Hd. destruct k; try discriminate.
+    apply (Hhold i KDefault). exact Hin.
+  - destruct (t_default t) as [d|] eqn:Ed; [|reflexivity]. exfalso.
+    assert (In (d, KDefault) (entries c)) as Hin by (apply (Hhold d KDefault); exact Ed).
+    pose proof (find_none _ _ Ef _ Hin) as Hn. discriminate Hn.
+Qed.
+
+(* precedence for EVERY Host value *)
+Theorem vhost_precedence_any c t wl h :
+  build c = Ok t -> wl_ok t wl -> find_vhost_with wl t h = spec_vhost_opt c h.
+Proof.
+  intros Hb Hwl. unfold spec_vhost_opt. destruct (host_parts_opt h) as [[host port]|] eqn:Eh.
+  - destruct h as [hh|]; [|discriminate]. cbn [host_parts_opt] in Eh.
+    rewrite (vhost_precedence c t wl hh host port Hb Hwl Eh). unfold spec_vhost. rewrite Eh. reflexivity.
+  - rewrite (vhost_unusable_host t wl h Eh). now apply default_of_entries.
 Qed.
 
 (* ------------------------------------------------------------------ case-insensitivity *)
@@ -549,7 +566,7 @@ Proof. destruct s; [reflexivity|discriminate]. Qed.
 Theorem vhost_host_case_insensitive t wl h h' : lower h = lower h' ->
   find_vhost_with wl t (Some h) = find_vhost_with wl t (Some h').
 Proof.
-  intros Hl. unfold find_vhost_with. destruct (only_default t); [reflexivity|].
+  intros Hl. unfold find_vhost_with. cbn [host_parts_opt]. unfold host_parts.
   destruct (String.eqb_spec h "") as [->|Hn]; destruct (String.eqb_spec h' "") as [->|Hn'].
   - reflexivity.
   - cbn in Hl. symmetry in Hl. apply lower_empty in Hl. congruence.
@@ -613,11 +630,7 @@ Qed.
 Theorem find_vhost_order_irrelevant c t wl wl' h :
   build c = Ok t -> wl_ok t wl -> wl_ok t wl' -> find_vhost_with wl t h = find_vhost_with wl' t h.
 Proof.
-  intros Hb Hwl Hwl'. destruct h as [hh|].
-  - destruct (host_parts hh) as [[host port]|] eqn:Eh.
-    + rewrite (vhost_precedence c t wl hh host port Hb Hwl Eh), (vhost_precedence c t wl' hh host port Hb Hwl' Eh). reflexivity.
-    + rewrite !(vhost_unusable_host t _ (Some hh) Eh). reflexivity.
-  - reflexivity.
+  intros Hb Hwl Hwl'. rewrite (vhost_precedence_any c t wl h Hb Hwl), (vhost_precedence_any c t wl' h Hb Hwl'). reflexivity.
 Qed.
 
 Theorem match_route_order_irrelevant c t wl wl' rq :
